@@ -179,6 +179,13 @@ where
 		t.num_inputs = lock_inputs.len();
 		for id in lock_inputs {
 			let mut coin = batch.get(&id.0, &id.1).unwrap();
+			// an input already reserved by (or spent in) another transaction must not be reserved again
+			if coin.status == OutputStatus::Locked || coin.status == OutputStatus::Spent {
+				return Err(Error::GenericError(format!(
+					"Output {} is already locked or spent, refusing to lock it for transaction {}",
+					coin.key_id, slate_id
+				)));
+			}
 			coin.tx_log_entry = Some(log_id);
 			amount_debited += coin.value;
 			batch.lock_output(&mut coin)?;
